@@ -4,6 +4,8 @@ import (
 	"errors"
 	"fmt"
 	"strings"
+
+	"github.com/BondMachineHQ/BondMachine/pkg/bmline"
 )
 
 // section entry points detection, the pass detects the symbol used as entry point of the section and sign it as metadata.
@@ -81,6 +83,20 @@ func entryPoints(bi *BasmInstance) error {
 				return errors.New("entry point not detected")
 			}
 
+			// The symbols attached to the entry directive itself denote the instruction that follows it:
+			// move them there before the directive is removed
+			if symbols := body.Lines[checkLine].GetMeta("symbol"); symbols != "" {
+				if checkLine+1 >= len(body.Lines) {
+					return errors.New("entry point not detected")
+				}
+				next := body.Lines[checkLine+1]
+				if nextSymbols := next.GetMeta("symbol"); nextSymbols != "" {
+					symbols = nextSymbols + ":" + symbols
+				}
+				next.BasmMeta = next.SetMeta("symbol", symbols)
+				checkPosition = -1
+			}
+
 			// Removing the entry directive line
 			copy(body.Lines[checkLine:], body.Lines[checkLine+1:])
 			body.Lines[len(body.Lines)-1] = nil
@@ -108,6 +124,19 @@ func entryPoints(bi *BasmInstance) error {
 						}
 					}
 				}
+			}
+
+			// Execution starts at address 0: when the entry point is not the first instruction, a jump to it is placed there
+			if checkPosition > 0 {
+				target := new(bmline.BasmElement)
+				target.SetValue(checkSymbol)
+				target.BasmMeta = target.SetMeta("type", "symbol")
+				jump := new(bmline.BasmLine)
+				jump.Operation = new(bmline.BasmElement)
+				jump.Operation.SetValue("j")
+				jump.Elements = []*bmline.BasmElement{target}
+				body.Lines = append([]*bmline.BasmLine{jump}, body.Lines...)
+				checkPosition++
 			}
 
 			body.BasmMeta = body.SetMeta("entry", fmt.Sprintf("%d", checkPosition))
